@@ -1,7 +1,7 @@
 (* The environment of this sandbox: which parser modules exist in /repo and what they do.
    pel_registry (component names, message registry) is absent here, so comp_name is empty. *)
 From Coq Require Import List NArith ZArith Bool Arith.
-From PV Require Import Base.Bytes Base.Lit Base.Json Model.Render Model.Hwdiags Gen.Tables.
+From PV Require Import Base.Bytes Base.Lit Base.Json Base.PelTypes Model.Render Model.Hwdiags Gen.Tables.
 Import ListNotations.
 Open Scope N_scope.
 
@@ -32,10 +32,12 @@ Definition osrc (lookup : text -> import_outcome (text -> list text -> plugin_re
 
 (* extra parser modules made available by a test fixture; consulted before the shipped ones *)
 Record fixtures := {
+  fx_registry : list reg_pel;                     (* a pel_registry package on sys.path: message registry ... *)
+  fx_comp : text -> text -> option text;          (* ... and <creator>_component_ids.json files *)
   fx_ud : text -> option (import_outcome (N -> N -> bytes -> plugin_result));
   fx_src : text -> option (import_outcome (text -> list text -> plugin_result));
   fx_co : text -> option (import_outcome (text -> plugin_result)) }.
-Definition no_fixtures : fixtures := {| fx_ud := fun _ => None; fx_src := fun _ => None; fx_co := fun _ => None |}.
+Definition no_fixtures : fixtures := {| fx_registry := []; fx_comp := fun _ _ => None; fx_ud := fun _ => None; fx_src := fun _ => None; fx_co := fun _ => None |}.
 
 Definition shipped_env_fx (fx : fixtures) (ud_oe500 ud_m2c00 : N -> N -> bytes -> plugin_result)
                           (src_oe500 : text -> list text -> plugin_result) : env :=
@@ -44,7 +46,8 @@ Definition shipped_env_fx (fx : fixtures) (ud_oe500 ud_m2c00 : N -> N -> bytes -
     | Some o => o
     | None => if text_eqb m (L "srcparsers.oe500.oe500") then IFound src_oe500 else INotFound
     end in
-  {| comp_name := fun _ _ => None;
+  {| registry := fx_registry fx;
+     comp_name := fx_comp fx;
      ud_import := fun m =>
        match fx_ud fx m with
        | Some o => o
@@ -92,7 +95,8 @@ Definition fx_outcome {F} (behaviour : N) (payload : text) (f : F) : import_outc
 
 Definition fixtures_of (l : list (N * text * N * text)) : fixtures :=
   let pick (kind : N) (m : text) := List.find (fun x => let '(k, n, _, _) := x in (k =? kind) && text_eqb n m) l in
-  {| fx_ud := fun m => match pick 0 m with
+  {| fx_registry := []; fx_comp := fun _ _ => None;
+     fx_ud := fun m => match pick 0 m with
                        | Some (_, _, b, p) => Some (fx_outcome b p (fun sub ver d =>
                            fx_result b p (JObj [(L "fx_subtype", JNum (Z.of_N sub)); (L "fx_version", JNum (Z.of_N ver)); (L "fx_data", JStr (bytes_hex d))])
                                      (match d with 255 :: _ => true | _ => false end)))
